@@ -540,7 +540,14 @@ class FamIPTW(Fam):
              ('standardized_mean_differences', [0], False, lambda o: o.standardized_mean_differences()),
              ('plot_kde', [0], False, lambda o: o.plot_kde()),
              ('plot_boxplot', [0], False, lambda o: o.plot_boxplot()),
-             ('plot_love', [0], False, lambda o: o.plot_love())]
+             ('plot_love', [0], False, lambda o: o.plot_love()),
+             # the non-default options of the diagnostics (weights = IPTW x missingness weights; log-odds scale)
+             ('run_diagnostics(iptw_only=False)', [0, 1], False, lambda o: o.run_diagnostics(iptw_only=False)),
+             ('positivity(iptw_only=False)', [0, 1], False, lambda o: o.positivity(iptw_only=False)),
+             ('standardized_mean_differences(iptw_only=False)', [0, 1], False, lambda o: o.standardized_mean_differences(iptw_only=False)),
+             ('plot_love(iptw_only=False)', [0, 1], False, lambda o: o.plot_love(iptw_only=False)),
+             ('plot_kde(logit)', [0], False, lambda o: o.plot_kde(measure='logit')),
+             ('plot_boxplot(logit)', [0], False, lambda o: o.plot_boxplot(measure='logit'))]
 
     def gen_cfg(self, rng):
         return {'outcome': rng.choice(['binary', 'binary', 'normal']), 'missing': rng.choice([None, 'mar', 'mcar']),
